@@ -325,7 +325,11 @@ func (s MinPriorityCoinSelector) CoinSelect(targetValue bchutil.Amount, coins []
 				}
 
 				extendedCoins.PushCoin(possibleCoins[n])
-				if extendedCoins.TotalValueAge()/int64(extendedCoins.Num()) < s.MinAvgValueAgePerInput {
+				if extendedCoins.TotalValueAge()/int64(extendedCoins.Num()) < s.MinAvgValueAgePerInput ||
+					!satisfiesTargetValue(targetValue, s.MinChangeAmount, extendedCoins.TotalValue()) {
+					// the extra coin would drop the average below the minimum,
+					// or turn an exact-target selection into one whose change
+					// is below MinChangeAmount
 					extendedCoins.PopCoin()
 					continue
 				}
